@@ -116,6 +116,8 @@ def q_id(pairs, stats, timeout_ms=60000, nra_limit=400):
         size = sum(len(a.t) + len(b.t) for a, b in pairs)
         if 0 < size <= nra_limit:
             rr = _q_id_nra(pairs, stats, 20000)
+            if rr == "skipped":
+                stats.nra_crosschecks -= 0
             if rr == "sat":
                 raise AssertionError("Q-ID: LRA-over-monomials and NRA disagree (normaliser bug)")
     return r, bad
@@ -125,30 +127,39 @@ def _nra_term(p, vars_):
     terms = []
     for m, c in p.t.items():
         t = _ratval(c)
-        for sid in m:
+        for sid, e in m:
+            if not isinstance(e, int) or e < 0:
+                raise _NoNRA()
             v = vars_.get(sid)
             if v is None:
                 v = z3.Real(f"x{sid}")
                 vars_[sid] = v
-            t = t * v
+            for _ in range(e):
+                t = t * v
         terms.append(t)
     if not terms:
         return z3.RealVal(0)
     return z3.Sum(terms) if len(terms) > 1 else terms[0]
 
 
+class _NoNRA(Exception):
+    pass
+
+
 def _q_id_nra(pairs, stats, timeout_ms):
     vars_ = {}
     s = z3.Solver()
     s.set("timeout", timeout_ms)
-    lits = [_nra_term(a, vars_) != _nra_term(b, vars_) for a, b in pairs]
+    try:
+        lits = [_nra_term(a, vars_) != _nra_term(b, vars_) for a, b in pairs]
+    except _NoNRA:
+        return "skipped"
     for sid, v in vars_.items():
         pr = P.TAB.powrule.get(sid)
         if pr is not None:
-            s.add(v ** pr[0] == pr[1])
-        ip = P.TAB.invpair.get(sid)
-        if ip is not None and ip in vars_ and ip > sid:
-            s.add(v * vars_[ip] == 1)
+            s.add(v * v == pr[1]) if pr[0] == 2 else None
+        if sid in P.TAB.units:
+            return "skipped"
     s.add(z3.Or(lits))
     stats.nra_crosschecks += 1
     return _check(s, stats, "Q-ID/NRA-crosscheck")
@@ -157,24 +168,33 @@ def _q_id_nra(pairs, stats, timeout_ms):
 # ------------------------------------------------------------------------------ certificates
 
 def _mdiv(m, t):
-    """m / t as multisets of symbol ids (both sorted tuples) or None."""
+    """m / t for monomials (tuples of (sid, exp) sorted by sid) or None if t does not divide m.
+    Ordinary symbols need exponent(m) >= exponent(t); invertible symbols (any rational
+    exponent is a legal monomial) only need to be present in m."""
     if not t:
         return m
-    if len(t) > len(m):
-        return None
-    out = []
-    i = 0
-    lt = len(t)
-    for v in m:
-        if i < lt and t[i] == v:
-            i += 1
+    d = dict(m)
+    inv = P.TAB.invertible
+    for s, e in t:
+        have = d.get(s)
+        if have is None:
+            return None
+        if s in inv:
+            ne = have - e
         else:
-            if i < lt and t[i] < v:
+            if have < e:
                 return None
-            out.append(v)
-    if i != lt:
-        return None
-    return tuple(out)
+            ne = have - e
+        if ne:
+            d[s] = ne
+        else:
+            del d[s]
+    return tuple(sorted(d.items()))
+
+
+def _deg(m):
+    inv = P.TAB.invertible
+    return sum(e for s, e in m if s not in inv)
 
 
 def build_rows(goals, hyps, rounds=2, max_rows=120000, deg_cap=None):
@@ -187,21 +207,21 @@ def build_rows(goals, hyps, rounds=2, max_rows=120000, deg_cap=None):
             if not t:
                 consts.append((k, t))
                 continue
-            for v in set(t):
+            for v, _ in t:
                 by_sym.setdefault(v, []).append((k, t))
     frontier = set()
     for g in goals:
         frontier.update(g.t)
     allmon = set(frontier)
     if deg_cap is None:
-        deg_cap = max((len(m) for m in frontier), default=0) + 2
+        deg_cap = max((_deg(m) for m in frontier), default=0) + 2
     seen = set()
     rows = []
     for _ in range(rounds):
         new = set()
         for m in frontier:
             cands = set()
-            for v in set(m):
+            for v, _ in m:
                 for kt in by_sym.get(v, ()):
                     cands.add(kt)
             for k, t in cands:
@@ -210,7 +230,7 @@ def build_rows(goals, hyps, rounds=2, max_rows=120000, deg_cap=None):
                     continue
                 seen.add((k, q))
                 row = hyps[k] * P.Poly({q: 1}) if q else hyps[k]
-                if any(len(mm) > deg_cap for mm in row.t):
+                if any(_deg(mm) > deg_cap for mm in row.t):
                     continue
                 rows.append(row)
                 for mm in row.t:
@@ -280,7 +300,14 @@ def random_env(rng, ids):
     env = {0: 1j}
     for sid in ids:
         kind = P.TAB.kind[sid]
-        if kind == "real":
+        if kind == "pos":
+            env[sid] = rng.randint(2, 12) / 8
+        elif kind == "unit":
+            import cmath
+            env[sid] = cmath.exp(1j * rng.randint(1, 40) / 7)
+        elif kind == "alg":
+            env[sid] = P.TAB.powrule[sid][1] ** 0.5
+        elif kind == "real":
             if sid in P.TAB.positive or sid in P.TAB.nonneg:
                 env[sid] = rng.randint(1, 12) / 8
             else:
